@@ -21,7 +21,7 @@ def run(tier):
     m1 = run_histories(chk, gen, {"C12"}, label="c12g")
     rng = rng_for(chk, 12)
     n = 60 if tier == "quick" else 800
-    hs = [histgen.gen_history(rng, nops=rng.choice([20, 40, 60]), comp="none", sizes=[0, 1, 2, 3, 5],
+    hs = [histgen.gen_history(rng, nops=rng.choice([20, 40, 60]), comp="none", sizes=[0, 1, 2, 3, 5, 1 << 32, (1 << 32) + 2, 1 << 40, (1 << 64) - 1],
                               hints_mode=rng.choice([None, "random", "none", "onlyone"]), rot=(i % 3 == 0),
                               qr_mode=rng.choice([None, "one", "sparse"]))
           for i in range(n)]
